@@ -50,6 +50,9 @@ structure Oracle where
   mess  : List ((Text × Int) × F32) := []
   coh   : List ((Text × Int × List Name) × Option (List (Name × F32))) := []
   merge : List (List (List (Name × Int)) × List (Name × F32)) := []
+  /-- per-character Unicode facts (full mode of the driver): cp, flag word, de-accented cp,
+      is_alphabetic, is_accentuated, to_lowercase -/
+  chars : List (Nat × Nat × Nat × Bool × Bool × List Nat) := []
 
 def needO {α} (q : Query) : M α := .error (.need q)
 
